@@ -148,11 +148,20 @@ fn make_dir(base: &std::path::Path, names: &[String], fresh: Option<usize>) -> s
     d
 }
 
+/// the per-process scratch directory of the current case; its path is replaced by `@BASE@` in every
+/// reported field so that `~+`-style results are comparable with the model and with bash
+static BASE_DIR: Mutex<String> = Mutex::new(String::new());
+
 fn ok_line(fields: &[String]) -> String {
+    let base = BASE_DIR.lock().map(|g| g.clone()).unwrap_or_default();
     let mut s = format!("{} {}", hex(b"OK"), hex(fields.len().to_string().as_bytes()));
     for f in fields {
         s.push(' ');
-        s.push_str(&hex(f.as_bytes()));
+        if base.is_empty() {
+            s.push_str(&hex(f.as_bytes()));
+        } else {
+            s.push_str(&hex(f.replace(&base, "@BASE@").as_bytes()));
+        }
     }
     s
 }
@@ -163,7 +172,34 @@ fn err_line() -> String {
 
 fn run_case(rt: &tokio::runtime::Runtime, base: &std::path::Path, ci: usize, c: &Case) -> String {
     let has = |ch: char| c.opts.contains(ch);
-    let dir = make_dir(base, &c.names, if c.ctx == "redir" { Some(ci) } else { None });
+    let sub = c.vars.iter().find(|(n, _, _)| n == "cwdsub__").and_then(|(_, v, _)| v.clone());
+    let mut dir = match &sub {
+        // a case that works in a subdirectory gets a parent of its own (holding nothing but that subdirectory)
+        Some(sub) => {
+            use std::hash::{Hash, Hasher};
+            let mut h = std::collections::hash_map::DefaultHasher::new();
+            c.names.hash(&mut h);
+            sub.hash(&mut h);
+            let d = base.join(format!("s{:016x}", h.finish()));
+            let _ = std::fs::create_dir_all(&d);
+            d
+        }
+        None => make_dir(base, &c.names, if c.ctx == "redir" { Some(ci) } else { None }),
+    };
+    if let Ok(mut g) = BASE_DIR.lock() {
+        *g = dir.to_string_lossy().into_owned();
+    }
+    // the pseudo variable `cwdsub__` names a subdirectory (any characters but '/') to work in: `~+`, `~0`
+    if let Some(sub) = &sub {
+        let d2 = dir.join(sub);
+        if !d2.exists() {
+            let _ = std::fs::create_dir_all(&d2);
+            for n in &c.names {
+                let _ = std::fs::write(d2.join(n), b"");
+            }
+        }
+        dir = d2;
+    }
     if let Ok(mut g) = CAPTURED.lock() {
         g.clear();
     }
@@ -182,6 +218,8 @@ fn run_case(rt: &tokio::runtime::Runtime, base: &std::path::Path, ci: usize, c: 
         "cond" => format!("if [[ {} == \"$ref__\" ]]; then zz 1; else zz 0; fi", c.word),
         "condp" => format!("if [[ \"$ref__\" == {} ]]; then zz 1; else zz 0; fi", c.word),
         "condn" => format!("if [[ -n {} ]]; then zz 1; else zz 0; fi", c.word),
+        // several operations in ONE shell: the script is given verbatim, every `zz` call is reported
+        "multi" => c.word.clone(),
         _ => return hex(b"BADCTX"),
     };
     let (status, shell) = rt.block_on(async {
@@ -190,6 +228,7 @@ fn run_case(rt: &tokio::runtime::Runtime, base: &std::path::Path, ci: usize, c: 
             Err(_) => return (-2, None),
         };
         let _ = shell.set_working_dir(&dir);
+        let _ = shell.env_mut().unset("OLDPWD");
         {
             let o = shell.options_mut();
             o.disable_filename_globbing = has('f');
@@ -201,6 +240,9 @@ fn run_case(rt: &tokio::runtime::Runtime, base: &std::path::Path, ci: usize, c: 
         }
         *shell.current_shell_args_mut() = c.args.clone();
         for (name, sval, arr) in &c.vars {
+            if name == "cwdsub__" {
+                continue;
+            }
             let var = match sval {
                 Some(v) => brush_core::ShellVariable::new(v.clone()),
                 None => brush_core::ShellVariable::new(brush_core::variables::ShellValue::indexed_array_from_strings(arr.clone())),
@@ -276,6 +318,15 @@ fn run_case(rt: &tokio::runtime::Runtime, base: &std::path::Path, ci: usize, c: 
                 // driver only uses targets that are not existing names.
                 ok_line(&now)
             }
+        }
+        "multi" => {
+            let g = CAPTURED.lock().map(|g| g.clone()).unwrap_or_default();
+            let mut f = vec![g.len().to_string()];
+            for call in &g {
+                f.push((call.len() - 1).to_string());
+                f.extend(call[1..].iter().cloned());
+            }
+            ok_line(&f)
         }
         _ => {
             let g = CAPTURED.lock().map(|g| g.clone()).unwrap_or_default();
